@@ -1,4 +1,6 @@
 // Unit `worker_start`: actix-server/src/worker.rs ServerWorker::start — the async block that creates a worker's services
+//@assumes unit=server_cmd fns=server::run_sync
+//@assumes unit=server_misc fns=builder::new,builder::bind,builder::listen,builder::listen_uds,builder::bind_uds,builder::next_token,builder::default
 // and builds the ServerWorker (actix-System path), verified as the anonymous async fn it is (rule R11c).  It is the step
 // that turns the builder's pairing `factory k has token k` into the worker's table invariant `service k serves token k`,
 // and that gives the worker the counter its accept-side handle shares (C01, C02, C07).
